@@ -36,6 +36,10 @@ type pairJob struct {
 	BPS           bool   `json:"server_peer_sharing"`
 	ID            uint16 `json:"protocol_id"`
 	FromResponder bool   `json:"sent_by_the_accepting_side"` // B's initiator-side instance sends (needs duplex)
+	// History "client-stop": before the request is sent, the dialing side stops its
+	// initiator instance of HistID (its Done also makes the accepting side's responder restart).
+	History string `json:"history,omitempty"`
+	HistID  uint16 `json:"history_protocol_id,omitempty"`
 }
 
 func buildPairJobs(c *core.Ctx) []pairJob {
@@ -66,6 +70,18 @@ func buildPairJobs(c *core.Ctx) []pairJob {
 						}
 					}
 				}
+			}
+		}
+	}
+	// histories on a full-duplex pair (highest version)
+	top := config{Mode: "ntn", Version: tableVersions("ntn")[len(tableVersions("ntn"))-1]}
+	for _, hid := range []uint16{2, 3, 4} {
+		for _, id := range sortedIDs(top.enabledIDs()) {
+			for _, fromB := range []bool{false, true} {
+				if (id == hid && !fromB) || (id == 8 && fromB) {
+					continue // the stopped instance itself / no keep-alive client on the accepting side
+				}
+				out = append(out, pairJob{Mode: "ntn", ADuplex: true, BDuplex: true, APS: true, BPS: true, ID: id, FromResponder: fromB, History: "client-stop", HistID: hid})
 			}
 		}
 	}
@@ -208,6 +224,27 @@ func pairCase(c *core.Ctx, j pairJob) {
 		sender, recvRig, recvWatch = br.conn, ra, wa
 	}
 	c.Journal("C17 pair %+v", j)
+	if j.History == "client-stop" {
+		stop, _ := clientStopStart(ar.conn, j.HistID)
+		var serr error
+		okStop := bounded(func() { serr = stop() })
+		if okStop && serr == nil && j.HistID != 4 {
+			// the accepting side's responder restarts on the Done: wait until it is back
+			okStop = waitFor(rb, wb, func() bool { return rb.count("handled", protocol.ProtocolRoleServer, int(j.HistID)) > 0 }, watchdog)
+		}
+		if _, bad := wa.first(); bad || !okStop || serr != nil {
+			ea, _ := wa.first()
+			eb, _ := wb.first()
+			teardown()
+			c.Inconclusive(fmt.Sprintf("pair %+v: the history did not complete (Stop returned=%v err=%v, errors %v / %v)", j, okStop, serr, ea, eb))
+			return
+		}
+		if eb, bad := wb.first(); bad {
+			teardown()
+			c.Violation("C17:history:client-stop:pair-connection-error", fmt.Sprintf("pair %+v: after the dialing side stopped its initiator of protocol %d the accepting connection reported %v", j, j.HistID, eb), map[string]any{"case": j})
+			return
+		}
+	}
 	p, msg := initiatorInstance(sender, j.Mode, j.ID)
 	w := map[string]any{"case": j}
 	if p == nil {
@@ -239,12 +276,24 @@ func pairCase(c *core.Ctx, j pairJob) {
 	}
 	c.Distinct("pair", j)
 	w["admit"], w["deliver"], w["receiver_error"], w["receiver_trace"] = admit, deliver, errText, recvRig.dump()
+	if admit == 0 && j.History != "" {
+		which := "another-protocol"
+		if j.ID == j.HistID {
+			which = "same-protocol-other-role"
+		}
+		c.Violation(fmt.Sprintf("C17:history:%s:pair-unreachable:%s", j.History, which),
+			fmt.Sprintf("pair %+v: after the dialing side stopped its initiator of protocol %d, the first request of the still enabled protocol %d never reached the responder (error on the receiving connection: %q)", j, j.HistID, j.ID, errText), w)
+		return
+	}
 	if admit == 0 {
 		c.Violation(fmt.Sprintf("C17:reach:pair-missing:%s:id%d", j.Mode, j.ID),
 			fmt.Sprintf("pair %+v: the first request of protocol %d sent by the real initiator side never reached the responder (error on the receiving connection: %q)", j, j.ID, errText), w)
 		return
 	}
 	c.Count("pair_reached", 1)
+	if j.History != "" {
+		c.Count("pair_reached_after_history", 1)
+	}
 	if !cfgA.duplex() && strayA > 0 {
 		c.Violation(fmt.Sprintf("C17:gate:pair-delivered-to-responder:%s:%s", j.Mode, cfgA.why()),
 			fmt.Sprintf("pair %+v: the client connection negotiated initiator-only but one of its responder instances handled a message", j), w)
